@@ -79,6 +79,8 @@ class Config:
                             self.opt, self.macro_name)
         if "-DAVEL_AUTO_DETECT" in self.extra:
             n += "-autodetect" + "".join(e.replace("-march=", "-") for e in self.extra if e.startswith("-march="))
+        if "-DNDEBUG" in self.extra:
+            n += "-ndebug"
         if "-fstrict-aliasing" in self.extra:
             n += "-strictalias"
         if "-DVP_DEFAULT_FP" in self.extra:
